@@ -115,6 +115,14 @@ def _observe_cpython(case, top, mods):
             elif what == "strcall":
                 out[(name, what)] = ("nostatic", site["suffix"])
                 continue
+            elif what == "literal":
+                import typing
+
+                value = ns["__annotations__"][name]  # CPython: a typing.Literal[...] of plain strings
+                if typing.get_origin(value) is not typing.Literal or not all(isinstance(a, str) for a in typing.get_args(value)):
+                    raise HarnessError(f"literal site {name} evaluated to {value!r}")
+                out[(name, what)] = ("literal", list(typing.get_args(value)))
+                continue
             elif what.startswith("deco"):
                 k = int(what[4:])
                 tags = ns[name]._decos  # application order: bottom-up; the last len(decos) entries are this object's
@@ -137,7 +145,7 @@ def _observe_cpython(case, top, mods):
 
 
 def _griffe_expr(gobj, st_, what):
-    if what in ("ann", "str", "strcall", "init-ann"):
+    if what in ("ann", "str", "strcall", "init-ann", "literal"):
         return gobj.annotation
     if what in ("val", "init-val"):
         return gobj.value
@@ -213,6 +221,24 @@ def check_case(case) -> list[Fail]:
                     cp = call("total", lambda d=gobj.decorators[int(what[4:])]: d.callable_path, what=f"callable_path of {where}")
                     if cp != gpath:
                         fails.append(Fail("decorator", "callable-path", f"{where}: callable_path={norm(cp)!r}, canonical path of the expression={norm(gpath)!r}\n{src_text()}", detail))
+                if exp[0] == "literal":
+                    # strings inside an (aliased) typing.Literal are values, not forward references: apart from the
+                    # subscripted name itself the expression contains no identifier
+                    names = [e for e in gexpr.iterate(flat=True) if isinstance(e, griffe.ExprName)] if isinstance(gexpr, griffe.Expr) else []
+                    left = call("total", lambda e=gexpr: e.left.canonical_path, what=f"canonical_path of {where}") if isinstance(gexpr, griffe.ExprSubscript) else None
+                    if left != "typing.Literal":
+                        fails.append(Fail("resolves", "literal-alias", f"{where}: the subscripted name resolves to {left!r}, CPython bound typing.Literal\n{src_text()}", detail))
+                    if len(names) > 1:
+                        extra = [(n_.name, n_.canonical_path) for n_ in names[1:]]
+                        fails.append(
+                            Fail(
+                                "unchanged",
+                                "literal-string-parsed",
+                                f"{where}: CPython's value is Literal{exp[1]} (plain strings); Griffe turned the strings into identifiers {norm(extra)}\n{src_text()}",
+                                detail,
+                            )
+                        )
+                    continue
                 if exp[0] == "nostatic":
                     # attribute segments after a call / subscript root have no static binding: the chain comes back as
                     # written (what the unchanged tree does) or relative to the root's own canonical path - never as a
